@@ -652,7 +652,23 @@ def argclass(step, pool):
     return 'any'
 
 
+def nan_involved(step, pool):
+    """a NaN key appears in the step itself or in a pool value the step refers to"""
+    try:
+        if 'NaN' in json.dumps(step):
+            return True
+        for i in step_refs(step):
+            if 0 <= i < len(pool) and pool[i] is not None and 'NaN' in json.dumps(mdesc(pool[i]), default=repr):
+                return True
+    except Exception:
+        return False
+    return False
+
+
 def classify(step, what, pool, got_desc=None, exp_desc=None):
+    if nan_involved(step, pool):
+        # every deviation on maps keyed by NaN shares the special-cased NaN key handling of XPathMap
+        return 'C15/same-key/nan'
     if what == 'value' and got_desc is not None and any(ATOMS[k].kc == 'untypedAtomic' for k in ctor_keys(step)):
         if untyped_as_string(exp_desc) == untyped_as_string(got_desc):
             return 'C15/map-constructor/untypedAtomic-key-becomes-string'
